@@ -16,7 +16,7 @@ class Fn:
 
     def __init__(self, file, scope, name, requires=(), ensures=(), splices=(), props=(), canary=False,
                  sig_subst=(), body_subst=(), external_body=False, decreases=None, ret_name='r', attrs=(), emit_name=None,
-                 no_unwind=False, lenient_sig=False, gtag_props=None, body_resub=()):
+                 no_unwind=False, lenient_sig=False, gtag_props=None, body_resub=(), extra_props=()):
         self.file, self.scope, self.name = file, scope, name
         self.requires, self.ensures = list(requires), list(ensures)
         self.splices = list(splices)
@@ -30,6 +30,7 @@ class Fn:
         self.attrs = list(attrs)
         self.emit_name = emit_name
         self.no_unwind = no_unwind
+        self.extra_props = list(extra_props)   # properties every failure located in this function also belongs to
         self.body_resub = list(body_resub)   # (regex, replacement, why): abstraction of an unsupported expression by a model call; must match exactly once
         self.gtag_props = gtag_props or {}   # per-function override of Unit.generic_tags (which property a generic tag belongs to here)
         self.lenient_sig = lenient_sig      # sig_subst entries that do not occur are skipped
